@@ -519,6 +519,11 @@ func handleChannelBindRequest(req Request, stunMsg *stun.Message) error { // nol
 		return buildAndSendErr(req.Conn, req.SrcAddr, err, badRequestMsg...)
 	}
 
+	// RFC 5766 Section 11.2: the channel number must be in the range 0x4000 through 0x7FFF.
+	if !channel.Valid() {
+		return buildAndSendErr(req.Conn, req.SrcAddr, proto.ErrInvalidChannelNumber, badRequestMsg...)
+	}
+
 	peerAddr := proto.PeerAddress{}
 	if err = peerAddr.GetFrom(stunMsg); err != nil {
 		return buildAndSendErr(req.Conn, req.SrcAddr, err, badRequestMsg...)
